@@ -1,13 +1,14 @@
-(* Property C03, unbounded instance K = 1 — acknowledged mode recovers from the loss of any ONE File Data PDU, for
-   EVERY file, every position of the lost PDU and every configuration, immediate or deferred NAK mode (the two-handler
-   system System.v; the fault schedule drops the File Data PDU number k, i.e. the PDU with index k+1 on the
-   sender-to-receiver direction, index 0 being the Metadata PDU).  The receiver detects the gap (at the next File Data
-   PDU or at the EOF), requests exactly that range, the sender retransmits it, the transfer completes. *)
+(* Property C03, unbounded instance K = 1 — acknowledged mode recovers from the loss of the METADATA PDU, for EVERY
+   file and every configuration, immediate or deferred NAK mode (the two-handler system System.v; the fault schedule
+   drops the PDU with index 0 on the sender-to-receiver direction).  The receiver starts the transaction from the
+   first File Data PDU (or from the EOF for an empty file), requests the Metadata with the segment request (0,0),
+   the sender retransmits it, the data received so far is requested again (it could not be stored without a file
+   name), the transfer completes. *)
 From CFDP Require Import Base LostSeg Fs Crc Checksum Handler Dest Source SourceSpec System.
-From CFDP.proofs Require Import SingleLossProofs.
+From CFDP.proofs Require Import MetadataLossProofs.
 
-Theorem c03_single_file_data_loss :
-  forall (cs cd : lcfg) (seq0 bits : Z) (p : putreq) (rs rd : rcfg) (sn dn : path) (data : bytes) (tick : Z) (k : Z),
+Theorem c03_metadata_loss :
+  forall (cs cd : lcfg) (seq0 bits : Z) (p : putreq) (rs rd : rcfg) (sn dn : path) (data : bytes) (tick : Z),
   let w := Z.max (l_idw cs) (pr_dstw p) in
   let large := 4294967295 <? zlen data in
   let derived := r_max_packet rs - (4 + 2 * w + bits / 8) - (if large then 8 else 4) - (if r_crc rs then 2 else 0) in
@@ -21,10 +22,8 @@ Theorem c03_single_file_data_loss :
   (* the maximum packet length the receiver has configured for the sender has room for the fixed part of a NAK PDU
      (header, directive code, start and end of scope, CRC): the deferred lost-segment procedure sizes its NAK PDUs
      with it and raises ValueError otherwise — the receiver then never requests the missing data
-     (counterexample: SingleLossProofs.max_packet_counterexample) *)
+     (counterexample: MetadataLossProofs.max_packet_counterexample) *)
   4 + 2 * w + bits / 8 + 1 + (if r_crc rs then 2 else 0) + 2 * (if large then 8 else 4) <= r_max_packet rd ->
-  (* the lost PDU is one of the File Data PDUs of the stream: k-th tile of the file *)
-  0 <= k -> k * seg < zlen data ->
   (* the Positive-ACK timer intervals of both entities are positive: with an interval <= 0 the timer has expired in
      the very call that starts it (sender: Positive ACK Limit fault when the limit is 1; receiver: a second Finished
      PDU is prepared before the first was retrieved -> UnretrievedPdusToBeSent) *)
@@ -38,7 +37,7 @@ Theorem c03_single_file_data_loss :
   get_fault_handler (l_faults cd) C_CHECKSUM_FAILURE <> None ->
   l_ind_fin cs = true -> l_ind_fin cd = true ->
   exists fuel,
-    let res := transfer cs cd seq0 bits p sn data [mkFault 0 (k + 1) 0 0] fuel tick in
+    let res := transfer cs cd seq0 bits p sn data [mkFault 0 0 0 0] fuel tick in
     delivered_ok dn data res = true /\ y_errs (fst res) = [].
-Proof. exact single_file_data_loss. Qed.
-Print Assumptions c03_single_file_data_loss.
+Proof. exact metadata_loss. Qed.
+Print Assumptions c03_metadata_loss.
